@@ -18,6 +18,7 @@ type HistCase struct {
 type World struct {
 	BaseUnix      int64             `json:"base_unix"`
 	ZoneMin       int               `json:"zone_offset_min"`
+	ZoneName      string            `json:"zone_name,omitempty"` // a zone with daylight saving time (overrides the fixed offset)
 	Cpus          int               `json:"cpus"`
 	Env           map[string]string `json:"env,omitempty"`
 	ConfigIni     string            `json:"config_ini,omitempty"`
